@@ -72,11 +72,10 @@ func Run(opts *Options) (int, error) {
 		return util.ToChars(data), nil
 	}
 
-	var lineAnsiState, prevLineAnsiState *ansiState
+	var lineAnsiState *ansiState
 	if opts.Ansi {
 		if opts.Theme.Colored {
 			ansiProcessor = func(data []byte) (util.Chars, *[]ansiOffset) {
-				prevLineAnsiState = lineAnsiState
 				trimmed, offsets, newState := extractColor(byteString(data), lineAnsiState, nil)
 				lineAnsiState = newState
 				return util.ToChars(stringBytes(trimmed)), offsets
@@ -114,8 +113,8 @@ func Run(opts *Options) (int, error) {
 			tokens := Tokenize(byteString(data), opts.Delimiter)
 			if opts.Ansi && opts.Theme.Colored && len(tokens) > 1 {
 				var ansiState *ansiState
-				if prevLineAnsiState != nil {
-					ansiStateDup := *prevLineAnsiState
+				if lineAnsiState != nil {
+					ansiStateDup := *lineAnsiState
 					ansiState = &ansiStateDup
 				}
 				for _, token := range tokens {
